@@ -77,7 +77,35 @@ func (r *Run) Paths(fn *Func) []Path {
 		r.P.SetPath(path)
 		dead := false
 		seenFact := map[string]factObs{}
+		mapState := map[string]bool{} // "m[k]" -> present, as established earlier on this path
 		for j, ev := range path.Events {
+			// what the path itself did to map slots: m[k] = v makes the key present, delete(m, k) absent,
+			// m = … forgets everything known about m
+			switch ev.Kind {
+			case EvAssign:
+				for _, l := range ev.Lhs {
+					if ix, ok := ast.Unparen(l).(*ast.IndexExpr); ok {
+						if tv, ok := ev.Fn.Info().Types[ix.X]; ok {
+							if _, isMap := tv.Type.Underlying().(*types.Map); isMap && (ev.Tok == token.ASSIGN || ev.Tok == token.DEFINE) {
+								mapState[r.P.Canon(ev.Fn, ix.X)+"["+r.P.Canon(ev.Fn, ix.Index)+"]"] = true
+							}
+						}
+						continue
+					}
+					if len(mapState) > 0 {
+						pre := r.P.Canon(ev.Fn, l) + "["
+						for k := range mapState {
+							if strings.HasPrefix(k, pre) {
+								delete(mapState, k)
+							}
+						}
+					}
+				}
+			case EvDelete:
+				if ev.Call != nil && len(ev.Call.Args) == 2 {
+					mapState[r.P.Canon(ev.Fn, ev.Call.Args[0])+"["+r.P.Canon(ev.Fn, ev.Call.Args[1])+"]"] = false
+				}
+			}
 			if ev.Kind != EvGuard || ev.Cond == nil || (ev.GKind != GIf && ev.GKind != GFor) {
 				continue
 			}
@@ -99,6 +127,16 @@ func (r *Run) Paths(fn *Func) []Path {
 			if r.contradictsHelperResult(path, j) || contradictsBoundConstant(ev) {
 				dead = true
 				break
+			}
+			// a lookup m[k] that contradicts what this very path did to (or already saw of) that slot
+			if strings.HasPrefix(g.Subject, "maplookup:") {
+				slot := strings.TrimPrefix(g.Subject, "maplookup:")
+				hit := g.Outcome == "hit"
+				if known, ok := mapState[slot]; ok && known != hit {
+					dead = true
+					break
+				}
+				mapState[slot] = hit
 			}
 			// the same fact about the connection (joined / nil-ness of the same source) observed with two
 			// outcomes without an assignment to that source in between
